@@ -18,7 +18,10 @@ LAYOUT = [
 ]
 
 # a function that is not a test but whose name matches a -run pattern (see K5)
-EXTRA_FUNCS = {"beta_test.go": "func utilGammaHelper() int { return 1 }\n"}
+EXTRA_FUNCS = {"beta_test.go": "func utilGammaHelper() int { return 1 }\n",
+               # text that LOOKS like test declarations but is not code: a commented-out old test, Go source kept as a raw string
+               "gamma_test.go": "/*\nfunc TestAlphaCommentedOut(t *testing.T) { runGamma(t) }\n\nfunc TestBCommented(t *testing.T) {}\n*/\n\n"
+                                "var generatedFixture = `\nfunc TestBetaInRawString(t *testing.T) {}\n\nfunc TestAlRaw(t *testing.T) {}\n`\n"}
 
 TEST_FILE = '''package {pkg}
 
